@@ -100,10 +100,10 @@ class C10(ProgramCheck):
     def specs(self, tier):
         if tier == "quick":
             return [dict(max_nodes=2, leaves=U.LEAVES)]
-        return [dict(max_nodes=3, leaves=U.LEAVES)]
+        return [dict(max_nodes=3, leaves=U.LEAVES), dict(max_nodes=4, min_nodes=4, leaves=U.LEAVES[10:13], loops=("n",), subs=(None,))]
 
     def nbhd_k(self, tier):
-        return 1 if tier == "quick" else 2
+        return 1  # k = 2 costs 45 min for this check (a graph search per program); thorough widens the pool instead
 
     def depth(self, tier):
         return 4 if tier == "quick" else 5
